@@ -21,7 +21,7 @@ OWSINGLE = os.path.join(HARNESS, 'bin', 'ow-single')
 
 
 def b64(b):
-    return base64.b64encode(b if isinstance(b, bytes) else b.encode()).decode()
+    return base64.b64encode(b if isinstance(b, bytes) else b.encode()).decode() or '-'   # '-' = empty request
 
 
 def fields(line):
@@ -468,8 +468,15 @@ def nest_expected(dims, elems, pos=0):
 def main():
     c = Check('C17')
     c.prove()
-    build_driver()
-    build_harness(['jsonrun'])
+    try:
+        build_driver()
+        build_harness(['jsonrun'])
+    except BuildError as e:
+        # the extracted model or the harness against /repo's working tree does not build: nothing can be compared
+        log('BUILD BROKEN:', e.what)
+        log(e.output[-2000:])
+        c.violation('build_broken.json', {'kind': 'build-broken', 'what': e.what, 'output_tail': e.output[-3000:]}, no_input=True)
+        c.finish(assumptions=['build of the model driver or of the Go harness failed; no case was run'])
     try:
         with vlib_lock():
             sh(['go', 'build', '-o', OWSINGLE, 'github.com/flowmatters/openwater-core/cmd/ow-single'],
@@ -504,6 +511,13 @@ def main():
         for _ in range(2 if quick else 10):
             base = g.structured(rng.choice(desc))
             cs = g.finish(nm, base['params'], base['inputs'], base['states'], 'badname')
+            cases.append(cs)
+    # the two requests that crashed the runner before the fix 3390dc3 (kept as a fixed corpus)
+    for split in (0, 1):
+        for ins in ([], [['zz_other', [1.0]]], [['i1', [1.0, 2.0]], ['i2', [1.0, 2.0, 3.0]]],
+                    [['i1', [1.0, 2.0, 3.0]], ['i2', [1.0]]], [['i2', [5.0]], ['i1', []]]):
+            cs = g.finish('Sum', [], ins, [], 'corpus')
+            cs['split'] = split
             cases.append(cs)
     # non-finite results (all three classes) through overflow
     for split in (0, 1):
@@ -610,6 +624,10 @@ def main():
                 key = crash_key(name, e['P'], e.get('L', 0), e.get('rows'), cs['split'], direct, len(e['m']['States']), replay['panic'])
             else:
                 key = 'crash:request-class-%s' % e['cls']
+            if e['cls'] == 'noinputs':
+                key = 'crash:no-inputs-supplied'
+            elif e['cls'] == 'length':
+                key = 'crash:unequal-input-lengths'
             replay['kind'] = 'no-single-valid-document-or-crash'
             replay['key'] = key
             replay['direct_run'] = 'ok' if direct else ('n/a' if e['cls'] != 'run' else 'also panics')
@@ -749,7 +767,8 @@ def main():
         in_range = 0 <= j['shift'] < j['nd']
         if j['nested'] is None:
             jsa_panics += 1
-            if in_range:
+            # element (0,..,0,i_d,..) must exist: an empty leading axis puts the call outside the property's domain
+            if in_range and all(d > 0 for d in j['dims'][:j['shift']]):
                 c.violation('jsa_%d.json' % k, {'kind': 'JsonSafeArray-panics', 'case': j['line']})
             if not mo.startswith('PANIC') and not mo.startswith('OK s') and not mo.startswith('OK n'):
                 c.corr_broken.append({'jsa': j['line'], 'diff': 'impl panics, model ' + mo[:100]})
